@@ -55,6 +55,10 @@ type (
 		X    SExpr
 		Type string
 	}
+	STupleSel struct {
+		X SExpr
+		I string
+	}
 )
 
 type tok struct {
@@ -373,6 +377,10 @@ func (p *sparser) postfix(e SExpr) SExpr {
 				continue
 			}
 			t := p.next()
+			if t.k == "int" {
+				e = &STupleSel{e, t.s}
+				continue
+			}
 			if t.k != "id" {
 				p.fail("expected field name after '.'")
 			}
@@ -471,6 +479,8 @@ func specString(e SExpr) string {
 		return "(let " + x.Name + " = " + specString(x.Val) + " in " + specString(x.Body) + ")"
 	case *STypeAssert:
 		return specString(x.X) + ".(" + x.Type + ")"
+	case *STupleSel:
+		return specString(x.X) + "." + x.I
 	}
 	return fmt.Sprintf("?%T", e)
 }
